@@ -109,8 +109,8 @@ REFUSED = {
 }
 
 
-def correspondence(outcome, tier, seed, targets, rng, n_hist):
-    """FormatsModel.translate_history against xt::Translator over generated histories."""
+def build(outcome, tier, seed, targets, rng, n_hist):
+    """Generates histories: the session requests and the model's description of each (FT case tail)."""
     pool = {}   # fmt -> [(value, text)]
     for fmt in ("json", "yaml", "msgpack", "toml"):
         pool[fmt] = []
@@ -192,8 +192,15 @@ def correspondence(outcome, tier, seed, targets, rng, n_hist):
                 continue
             i = len(reqs)
             reqs.append({"id": i, "to": to, "calls": calls})
-            cases.append("FT %d %s %s" % (i, to, ";".join(mcalls) if mcalls else "-"))
+            cases.append((i, to, ";".join(mcalls) if mcalls else "-"))
             metas.append((to, calls))
+    return reqs, cases, len(sreqs)
+
+
+def correspondence(outcome, tier, seed, targets, rng, n_hist):
+    """FormatsModel.translate_history against xt::Translator over generated histories."""
+    reqs, tails, n_single = build(outcome, tier, seed, targets, rng, n_hist)
+    cases = ["FT %d %s %s" % t for t in tails]
     resps = common.harness_batch(reqs)
     model = common.run_driver_lines(cases)
     nontrivial = 0
@@ -211,11 +218,11 @@ def correspondence(outcome, tier, seed, targets, rng, n_hist):
                                           "model": ("%s %s" % (mo, mvs))[:3000]})
         if len(req["calls"]) >= 2 or any(c.count(",") for c in cases[i].split(" ")[3:]):
             nontrivial += 1
-    outcome.evaluations += len(sreqs) + len(reqs)
+    outcome.evaluations += n_single + len(reqs)
     outcome.traces_validated += len(reqs)
     outcome.distinct_nontrivial += nontrivial
     outcome.extra["history_correspondence"] = {
-        "single_document_runs": len(sreqs), "histories": len(reqs), "targets": list(targets),
+        "single_document_runs": n_single, "histories": len(reqs), "targets": list(targets),
         "bound": "histories of 0..6 translate calls in mixed source formats, 0..5 documents per call joined with every "
                  "separator style, slice and reader (random read schedules), with refused documents and trailing garbage; "
                  "documents from the common-model generator (depth <= 3)"}
@@ -226,3 +233,63 @@ def correspondence(outcome, tier, seed, targets, rng, n_hist):
 def json_short(req):
     import json
     return json.dumps(req)[:3000]
+
+
+def writer_correspondence(outcome, tier, seed, targets, rng, n_hist):
+    """IoModel.translate_history_w against xt::Translator over a writer that takes short pieces and/or
+    starts failing after k bytes: accepted bytes and per-call verdicts."""
+    reqs, tails, n_single = build(outcome, tier, seed, targets, rng, n_hist)
+    free = common.harness_batch(reqs)
+    vreqs, cases = [], []
+    for req, tail, fr in zip(reqs, tails, free):
+        if fr.get("crash") or fr.get("hang"):
+            continue
+        n = len(fr.get("out", "-")) // 2 if fr.get("out", "-") != "-" else 0
+        ks = [None, None]
+        if n:
+            ks += [0, n, n - 1, rng.randrange(n + 1), rng.randrange(n + 1)] + ([1, n // 2] if tier == "thorough" else [])
+        for k in ks:
+            caps = [rng.choice([0, 0, 1, 2, 6, 30, 4000]) for _ in range(min(n + 2, 400))] if rng.random() < 0.7 else None
+            r = {"id": len(vreqs), "to": req["to"], "calls": req["calls"]}
+            if k is not None:
+                r["wfault"] = k
+            if caps is not None:
+                r["wshort"] = {"kind": "offsets", "caps": caps}
+                sched = ",".join(str(c) for c in caps) if caps else "-"
+            else:
+                # a writer that takes everything: caps beyond any length
+                r["wshort"] = None
+                sched = None
+            if sched is None:
+                r.pop("wshort")
+                big = ",".join(["1000000"] * min(n + 2, 400)) or "-"
+                # beyond the table the model's cap is 1 byte; give the implementation the same schedule
+                r["wshort"] = {"kind": "offsets", "caps": [1000000] * min(n + 2, 400)}
+                sched = big
+            cases.append("FW %d %s %s %s %s" % (len(vreqs), tail[1], "-" if k is None else k, sched, tail[2]))
+            vreqs.append(r)
+    resps = common.harness_batch(vreqs)
+    model = common.run_driver_lines(cases)
+    nontrivial = 0
+    for i, (req, resp) in enumerate(zip(vreqs, resps)):
+        if resp.get("crash") or resp.get("hang") or any(c.get("panic") for c in resp.get("calls", [])):
+            outcome.oracle_failures.append({"what": "crash, hang or panic with a short-writing / failing writer", "request": json_short(req),
+                                            "observed": json_short(resp)})
+            continue
+        impl = "%s %s" % (resp.get("out", "-"), ",".join(verdict_line(resp)))
+        m = model.get(str(i), "")
+        if impl != m:
+            outcome.disagreements.append({"what": "Translator over a short-writing/failing writer: accepted bytes / verdicts differ from "
+                                                  "IoModel.translate_history_w", "case": cases[i][:3000], "request": json_short(req),
+                                          "implementation": impl[:3000], "model": m[:3000]})
+        if "wfault" in req:
+            nontrivial += 1
+    outcome.evaluations += n_single + len(reqs) + len(vreqs)
+    outcome.traces_validated += len(vreqs)
+    outcome.distinct_nontrivial += nontrivial
+    outcome.extra["writer_correspondence"] = {
+        "histories": len(reqs), "writer_variants": len(vreqs), "targets": list(targets),
+        "bound": "each generated history (as for the history correspondence) x {no fault, fault at 0, at the end, one before the "
+                 "end, random offsets} x {writer takes everything, random short-write caps per accepted-count}"}
+    if cases:
+        outcome.add_sample({"writer_case": cases[min(5, len(cases) - 1)][:300]})
